@@ -476,6 +476,78 @@ class CacheScenario:
         return None
 
 
+class _PoisonedNumpy:
+    """numpy with a recognisable `empty`: memory that np.empty hands out is filled with NaN, so that a thread which
+    reads an output array before its producer has filled it cannot receive, by accident of the allocator, the
+    values an earlier run left in the same block (what a memory sanitizer does for C)"""
+
+    def __getattr__(self, k):
+        return getattr(np, k)
+
+    @staticmethod
+    def empty(shape, dtype=float, **kw):
+        a = np.empty(shape, dtype, **kw)
+        if a.dtype.kind in 'fc':
+            a.fill(np.nan)
+        return a
+
+
+class RealCacheScenario:
+    """The data set's own virtual sensors (katdal.dataset.DEFAULT_VIRTUAL_SENSORS, whose creation functions look up
+    several sensors and register more than one result) first-accessed from several threads.  Judged on the values
+    the threads obtain only; the lock protocol is the CacheScenario's."""
+    kind = 'dvcache'
+
+    def __init__(self, variant):
+        self.variant = variant
+        self.programs = variant['programs']       # per thread: list of sensor names
+        self.n = len(self.programs)
+        self.name = f'dvcache-{self.n}t'
+
+    def build(self, s):
+        import katpoint
+        from katdal.categorical import CategoricalData
+        from katdal.dataset import DEFAULT_SENSOR_PROPS, DEFAULT_VIRTUAL_SENSORS
+        from katdal.sensordata import SensorCache
+        from harness.props.c12 import ANT_ARRAY, ANT_M000
+        import katdal.dataset
+        if not isinstance(katdal.dataset.np, _PoisonedNumpy):
+            katdal.dataset.np = _PoisonedNumpy()
+        T = 4
+        ts = 1600000000.0 + 8.0 * np.arange(T)
+        ant, arr = katpoint.Antenna(ANT_M000), katpoint.Antenna(ANT_ARRAY)
+        tgt = katpoint.construct_azel_target(0.4, 0.9)
+        keep = np.array([False, True, True, False])
+        cache = SensorCache({}, ts, 8.0, keep=keep, props=DEFAULT_SENSOR_PROPS, virtual=dict(DEFAULT_VIRTUAL_SENSORS))
+        cache['Observation/target'] = CategoricalData([tgt], [0, T])
+        cache['Antennas/m000/antenna'] = CategoricalData([ant], [0, T])
+        cache['Antennas/array/antenna'] = CategoricalData([arr], [0, T])
+        cache['Antennas/m000/az'] = 0.4 + 0.01 * np.arange(T)
+        cache['Antennas/m000/el'] = 0.9 - 0.01 * np.arange(T)
+        self.cache = cache
+        if s is not None and hasattr(cache, '_lock'):
+            cache._lock = s.make_lock('RLock' in type(cache._lock).__name__, 'cache._lock')
+        return [self._fn(p) for p in self.programs]
+
+    def _fn(self, program):
+        def fn():
+            out = []
+            for name in program:
+                v = np.asarray(self.cache[name], dtype=float)
+                out.append(np.round(v, 9))
+            return canon(out)
+        return fn
+
+    def observe(self, s, t):
+        pass
+
+    def requests(self):
+        return []
+
+    def final_check(self):
+        return None
+
+
 # -- pool -----------------------------------------------------------------------------------------
 
 class _BodyError(Exception):
@@ -634,6 +706,8 @@ def make_scenario(kind, variant):
         sc = CacheScenario(variant)
     elif kind == 'pool':
         sc = PoolScenario(variant)
+    elif kind == 'dvcache':
+        sc = RealCacheScenario(variant)
     else:
         raise Broken(f'unknown scenario kind {kind}')
     return sc
@@ -842,6 +916,13 @@ def variants(ctx):
     out.append(('cache', dict(programs=pick([[['get', 5], ['get', 0]], [['item', 2], ['get', 3]]],
                                             [[['get', 6], ['item', 1]], [['get', 3]]],
                                             [[['item', 5], ['get', 6]], [['get', 6], ['item', 0]]])), b2, q(300, 3000)))
+    # the data set's own virtual sensors, which register a pair / triple of results per call
+    g = 'Antennas/m000/'
+    for progs in ([[g + 'target_x_ARC_azel'], [g + 'target_y_ARC_azel', g + 'az']],
+                  [[g + 'ra', g + 'parangle'], [g + 'dec', g + 'target_y_SIN_radec']],
+                  [[g + 'lst', g + 'target_x_SSN_radec'], [g + 'target_y_SSN_radec', 'Timestamps/mjd', g + 'lst']]):
+        # every single preemption point (bound 1 is exhaustive here), then seeded plans with two
+        out.append(('dvcache', dict(programs=progs), 1, q(260, 3000)))
     # _Pool: borrow / return, bodies that raise
     out.append(('pool', dict(plans=pick(['11', '1'], ['11', '11'], ['10', '11'])), q(3, 4), q(500, 6000)))
     out.append(('pool', dict(plans=pick(['11', '1', '1'], ['1', '01', '11'])), b2, q(350, 5000)))
